@@ -79,9 +79,9 @@ def side_exists(p, var, T, idx, pname, side):
     return (sd == (side == "right")), idx
 
 
-def run_config(ctx, rep, cfg, F):
+def run_config(ctx, rep, cfg, F, only_acc=None):
     n = 0
-    for short, (side, kind) in NAV.items():
+    for short, (side, kind) in ({} if only_acc is not None else NAV).items():
         if short not in F.short:
             rep.bad("R11.1", short, "missing", "%s not found" % short, kind="unrecognised", config=cfg)
             continue
@@ -134,7 +134,7 @@ def run_config(ctx, rep, cfg, F):
                 rep.ok("R11.1", short, "%s:%s" % (var, ",".join(str(w[0]) for w in want)),
                        sample={"position": [var, idx], "inputs": ins, "result": repr(res)[:160]} if var == "Virtual" else None)
     # ---- accessors
-    for short, (at_node, at_virtual) in ACC.items():
+    for short, (at_node, at_virtual) in (only_acc if only_acc is not None else ACC).items():
         if short not in F.short:
             rep.bad("R11.2", short, "missing", "%s not found" % short, kind="unrecognised", config=cfg)
             continue
@@ -197,6 +197,8 @@ def run_config(ctx, rep, cfg, F):
                     rep.bad("R11.2", short, "Node:other-node", "%s writes the value of %s, not of the view's node %s" % (short, [w["node"] for w in writes], idx), config=cfg)
                 else:
                     rep.ok("R11.2", short, "Node: own node")
+    if only_acc is not None:
+        return
     # ---- constructors
     for short, tbl in ROOTS.items():
         if short not in F.short:
